@@ -5,6 +5,7 @@ import sys
 
 import common as c
 import evalstream as es
+import c03_failbind as fb
 from gen_programs import Gen
 
 PID = "C03"
@@ -232,6 +233,10 @@ def main(argv):
         import json
         rp = json.load(open(replay))
         print(json.dumps(rp, indent=1))
+        if rp.get("kind") == "impl-law-failbind":
+            return fb.replay(c, es, h, rp, strip_names)
+        if rp.get("kind") == "repl-failbind":
+            return fb.repl_replay(c, rp)
         if rp.get("program"):
             out = c.harness_lines_resilient(h, "session", [c.hexs(rp["program"]) + "\t" + c.hexs(es.DEFAULT_INPUTS_JSON)])[0]
             print("implementation now returns:", out)
@@ -288,6 +293,10 @@ def main(argv):
                               "random_longer": n_random, "impl_invariant_checks": checks,
                               "model_compared": len(idx), "model_agree": agree, "mismatches": len(mism)}
 
+    # ---------------- FAILBIND: statements that fail after a nested assignment bound a name (checks/c03_failbind.py)
+    fb_evals, fb_nontrivial, fb_agree = fb.run(c, es, h, res, rng, tier, check_session_invariant, strip_names)
+    fb_evals += fb.repl_stream(c, res, rng, tier)
+
     # ---------------- EVAL: general generated programs, model vs implementation
     n_eval = 300 if tier == "quick" else 40000
     g = Gen(rng)
@@ -312,8 +321,8 @@ def main(argv):
         res.tie_broken(e.what, e.detail)
         agree2 = 0
 
-    res.coverage["evaluations"] = len(sess) + n_eval
-    res.coverage["distinct_nontrivial"] = len({o for o in outs if "OK:" in o})
+    res.coverage["evaluations"] = len(sess) + n_eval + fb_evals
+    res.coverage["distinct_nontrivial"] = len({o for o in outs if "OK:" in o}) + fb_nontrivial
     res.coverage["rule"] = ("sessions = every statement sequence of length <= %d over a %d-statement alphabet (bind, "
                             "rebind, alias, shadow-in-do, nested assignment, self-rebinding initialiser, output, call, "
                             "failing, forbidden names, functions escaping do-blocks) + %d random longer ones, each ending "
@@ -321,7 +330,7 @@ def main(argv):
                             "snapshots and probe calls; non-trivial = distinct traces with at least one successful "
                             "statement" % (depth, len(ALPHABET), n_random))
     res.coverage["samples"] = [{"session": sess[i], "trace": outs[i]} for i in (0, len(sess) // 2, len(sess) - 1)]
-    res.coverage["traces_validated_against_impl"] = agree + agree2
+    res.coverage["traces_validated_against_impl"] = agree + agree2 + fb_agree
     res.assumptions = ["sessions continue after a failing statement (REPL semantics); the CLI stops at the first "
                        "failure, which is the prefix case",
                        "display names of functions are not part of the compared value (write-once, see theorem "
